@@ -738,11 +738,32 @@ class FnItem:
                 fns = src.find_fn(spec["name"], b[1] + 1, b[2])
                 for f in fns:
                     cands.append((b, f))
+            self.default_instantiated = False
+            if len(cands) == 0 and spec.get("default_from") and len(blocks) == 1:
+                # R25 default-method instantiation: the impl does not define the method, so (language semantics) it gets the
+                # trait's default body - copied here from the trait declaration, token for token
+                dfile, dtrait = spec["default_from"]
+                dsrc = Source(repo + "/" + dfile)
+                tb = dsrc.find_blocks("trait", dtrait)
+                dfn = []
+                for t in tb:
+                    dfn += dsrc.find_fn(spec["name"], t[1] + 1, t[2])
+                if len(dfn) != 1 or dsrc.toks[dfn[0][2]].text != "{":
+                    raise Undecided("%s: default method %s of trait /%s/ found %d times" % (dfile, spec["name"], dtrait, len(dfn)))
+                b = blocks[0]
+                self.impl_header = norm(src.span(b[0], b[1] - 1))
+                self.impl_header_src = src.span(b[0], b[1] - 1)
+                self.default_instantiated = True
+                src = dsrc
+                rel = dfile
+                f = dfn[0]
+                cands = [(b, f)]
             if len(cands) != 1:
                 raise Undecided("%s: fn %s in impl /%s/ found %d times" % (rel, spec["name"], spec["impl"], len(cands)))
             b, f = cands[0]
-            self.impl_header = norm(src.span(b[0], b[1] - 1))
-            self.impl_header_src = src.span(b[0], b[1] - 1)
+            if not self.default_instantiated:
+                self.impl_header = norm(src.span(b[0], b[1] - 1))
+                self.impl_header_src = src.span(b[0], b[1] - 1)
         else:
             fns = src.find_fn(spec["name"], lo, hi)
             if len(fns) != 1:
@@ -844,6 +865,8 @@ class FnItem:
                 n_closures += 1
         if n_closures > len(sp.get("closures") or {}):
             self.imprecise.append("%d closure(s) without a spliced contract" % (n_closures - len(sp.get("closures") or {})))
+        if getattr(self, "default_instantiated", False):
+            hits["R25"] = 1
         hits = {k: v for k, v in hits.items() if v}
         self.rule_hits = hits
         expected = sp.get("rules", {})
@@ -851,7 +874,7 @@ class FnItem:
             expected = hits
         # R1 / R2 only remove or guard logging, R3/R3b/R6/R7/R14/R20 are the language's own desugarings: their site
         # counts are recorded, not pinned.  Pinned: rewrites that abstract something (R4 profile, R9 counters, clock ...)
-        free = ("R1", "R2", "R3", "R3b", "R6", "R7", "R14", "R20", "R21", "R22") + tuple(sp.get("unpinned", ()))
+        free = ("R1", "R2", "R3", "R3b", "R6", "R7", "R14", "R20", "R21", "R22", "R25") + tuple(sp.get("unpinned", ()))
         strict = lambda d: {k: v for k, v in d.items() if k not in free}
         if strict(hits) != strict(expected):
             raise Undecided("%s::%s: rewrite sites changed: expected %r, found %r" % (self.rel, self.name, expected, hits))
